@@ -16,6 +16,7 @@ PROPS = {
     "C06": ("p_analysis", "check_c06"),
     "C07": ("p_workspace", "check_c07"),
     "C08": ("p_server", "check_c08"),
+    "C09": ("p_loc", "check_c09"),
     "C10": ("p_pos", "check_c10"),
     "C11": ("p_server", "check_c11"),
     "C12": ("p_server", "check_c12"),
